@@ -123,26 +123,38 @@ def build_record(v, np):
     raise ValueError('cannot build record of class ' + cls)
 
 
+def run_one(req, np, cache):
+    try:
+        key = (req['target'], bool(req.get('py_func')))
+        if key not in cache:
+            fn = resolve(req['target'])
+            if req.get('py_func') and hasattr(fn, 'py_func'):
+                fn = fn.py_func
+            cache[key] = fn
+        fn = cache[key]
+        args = [decode(a, np) for a in req['args']]
+        if isinstance(fn, property):
+            res = fn.fget(*args)
+        else:
+            res = fn(*args)
+        return {'ok': True, 'result': encode(res, np), 'post_args': [encode(a, np) for a in args]}
+    except BaseException as e:  # noqa
+        return {'ok': False, 'exc': type(e).__name__, 'msg': str(e)[:500]}
+
+
 def main():
     req = json.load(sys.stdin)
     repo = req.get('repo', '/repo')
     sys.path.insert(0, repo)
     os.chdir(repo)
     import numpy as np
-    try:
-        fn = resolve(req['target'])
-        args = [decode(a, np) for a in req['args']]
-        if req.get('method_of') is not None:
-            pass
-        if req.get('py_func') and hasattr(fn, 'py_func'):
-            fn = fn.py_func
-        if isinstance(fn, property):
-            res = fn.fget(*args)
-        else:
-            res = fn(*args)
-        out = {'ok': True, 'result': encode(res, np), 'post_args': [encode(a, np) for a in args]}
-    except BaseException as e:  # noqa
-        out = {'ok': False, 'exc': type(e).__name__, 'msg': str(e)[:500]}
+    cache = {}
+    if 'calls' in req:
+        out = {'results': [run_one(dict(c, target=c.get('target', req.get('target')),
+                                        py_func=c.get('py_func', req.get('py_func'))), np, cache)
+                           for c in req['calls']]}
+    else:
+        out = run_one(req, np, cache)
     sys.stdout.write(json.dumps(out))
 
 
